@@ -153,7 +153,8 @@ int main(int argc, char** argv) {
             DX t; double mag = std::pow(10.0, r.range(-3, 5) + r.unit()); double th = r.chance(20) ? 0.0 : r.unit() * 6.283185307179586;
             t.a = mag * std::cos(th); t.b = -mag * std::sin(th); t.c = mag * std::sin(th); t.d = mag * std::cos(th);
             if (th == 0.0) { t.b = 0; t.c = 0; }
-            double off = r.chance(35) ? 0.0 : mag * std::pow(10.0, r.range(0, 4)); t.tx = off * (r.unit() - 0.5) * 2; t.ty = off * (r.unit() - 0.5) * 2;
+            bool lineal = p.mode != "buf" || p.ss;      // single-sided buffers / offset curves: keep |d| well above the coordinate resolution
+            double off = r.chance(35) ? 0.0 : mag * std::pow(10.0, r.range(0, lineal ? 1 : 4)); t.tx = off * (r.unit() - 0.5) * 2; t.ty = off * (r.unit() - 0.5) * 2;
             std::string tin = geomTokD(A, t);
             std::unique_ptr<Geometry> g;
             try { g = buildGeom(tin, gf); } catch (...) { out.count("build_rejected"); continue; }
@@ -164,6 +165,7 @@ int main(int argc, char** argv) {
             // distance: 1e-6 .. 1e3 times the input size, both signs
             double rel = std::pow(10.0, r.range(-6, 2) + r.unit());
             if (r.chance(50)) rel = std::pow(10.0, r.range(-2, 0) + r.unit());            // the interesting middle range more often
+            if (lineal && rel < 1e-3) rel = std::pow(10.0, -3.0 * r.unit());
             p.d = size * rel;
             bool hasPoly = g->getDimension() == 2;
             if (p.mode == "buf" && !p.ss) {
